@@ -46,6 +46,8 @@ def rules_c17(ctx):
     out += p_eliasfano.rule_select_range(ctx)
     # the Elias-Fano constructor writes outside its bit vector if a sentinel-keyed segment is coded (universe wraps to 0)
     out += S.rule_upper_level_sentinel(ctx, 'eliasfano')
+    # the segmentation driver never reads the input outside [0, n)
+    out += p_segmentation.rule_in_range(ctx)
     out += rule_back_guard(ctx)
     out += rule_iter_invalidation(ctx)
     return out
